@@ -69,6 +69,15 @@ def selftest(wd, recs):
     k = first(lambda r: r["ev"] == "verify_invoice" and not r["accept"])
     if k is not None:
         muts.append(("invoice-refusal-reported-accepted", flipped(k, accept=True)))
+    ks = None
+    for k, r in enumerate(recs):   # a refused request / invoice built from a single-bit-altered copy
+        if r["ev"] == "reset":
+            in_sweep = r["part"] == "sweep"
+        elif in_sweep and r["ev"] in ("verify_invreq", "verify_invoice") and not r["accept"]:
+            ks = k
+            break
+    if ks is not None:
+        muts.append(("single-bit-altered-copy-accepted", flipped(ks, accept=True)))
     k = first(lambda r: r["ev"] == "request")
     if k is not None:
         muts.append(("build-event-dropped", recs[:k] + recs[k + 1:]))
@@ -127,7 +136,7 @@ def run(tier, seed):
     if not scripts or not cases:
         raise vlib.ToolError("TLC produced no scripts / cases")
     nscripts_mc, ncases_mc = len(scripts), len(cases)
-    cap = 40000 if thorough else 7000
+    cap = 40000 if thorough else 10000
     if len(scripts) > cap:
         scripts = rng.sample(scripts, cap)
     b11 = [c for c in cases if c["fmt"] == "b11"]
@@ -145,11 +154,22 @@ def run(tier, seed):
         for c in b11 + b12:
             f.write(json.dumps(c) + "\n")
 
+    # single-bit sweeps of offers / refunds / echoed requests: every key mode, several objects each
+    sweeps = [{"fmt": "sweep", "kind": k, "mode": m}
+              for _ in range(10 if thorough else 3)
+              for k, ms in (("offer", ["explicit", "meta", "path"]), ("refund", ["explicit", "meta", "path"]),
+                            ("echo", ["explicit", "meta"]))
+              for m in ms]
+    wpath = os.path.join(wd, "sweeps.ndjson")
+    with open(wpath, "w") as f:
+        for c in sweeps:
+            f.write(json.dumps(c) + "\n")
+
     # ---- 2. run the real code
     tpath = os.path.join(wd, "trace.ndjson")
     args = ["--scripts", spath, "--cases", cpath, "--out", tpath, "--seed", seed,
             "--muts", 4 if thorough else 2, "--full", 12 if thorough else 1,
-            "--fuzz", 20000 if thorough else 1500]
+            "--fuzz", 20000 if thorough else 1500, "--sweeps", wpath, "--sweep-bits", 0]
     te = time.time()
     p = vlib.run_bin(bins["payreq"], args, timeout=3000)
     summ = json.loads(p.stdout.strip().splitlines()[-1])
@@ -161,6 +181,9 @@ def run(tier, seed):
         raise vlib.ToolError("builders refused more than 10% of the presence subsets: driver is not exercising them")
     if summ["accepts"] == 0 or summ["accepts"] * 2 > summ["verifies"]:
         raise vlib.ToolError("verification answers look vacuous: %d accepts of %d" % (summ["accepts"], summ["verifies"]))
+    if summ["sweep_judged"] * 3 < summ["sweep_bits"] or summ["sweep_judged"] < 1000:
+        raise vlib.ToolError("single-bit sweep is vacuous: %d of %d altered copies were usable" %
+                             (summ["sweep_judged"], summ["sweep_bits"]))
     if summ["proto_build_failed"] * 20 > summ["proto_runs"]:
         raise vlib.ToolError("%d of %d protocol scripts stopped at a failed builder call: driver is not "
                              "exercising the derivation chains" % (summ["proto_build_failed"], summ["proto_runs"]))
@@ -187,6 +210,11 @@ def run(tier, seed):
             inp = {"script": scripts[runid - 1]}
         elif runid <= nscr + ncase:
             inp = {"case": (b11 + b12)[runid - nscr - 1]}
+        elif fl["run_events"] and fl["run_events"][0].get("part") == "sweep":
+            r0 = fl["run_events"][0]
+            inp = {"sweep": r0["directive"], "first_run": r0["first_run"], "batch": r0["batch"],
+                   "replay": "write input.sweep as one line to F; payreq --sweeps F --seed %d --first-run %d "
+                             "--out t.ndjson (reproduces all batches of this object)" % (seed, r0["first_run"])}
         else:
             inp = {"fuzz_batch": runid - nscr - ncase}
         key = "panic" if fl["rec"].get("ev") == "panic" else None
@@ -210,7 +238,7 @@ def run(tier, seed):
     # ---- 4. binding self-test: head of the protocol runs + one table case of each format
     st = None
     if not fails:
-        head, want = [], {"proto": 120, "b11": 6, "b12": 6}
+        head, want = [], {"proto": 120, "b11": 6, "b12": 6, "sweep": 12}
         with open(tpath) as f:
             part, keep, full_b11 = None, False, nfull
             for ln in f:
@@ -222,8 +250,6 @@ def run(tier, seed):
                         keep, full_b11 = False, full_b11 - 1   # skip the exhaustive cases (large)
                     elif keep:
                         want[part] -= 1
-                    if not any(v > 0 for v in want.values()) and not keep:
-                        break
                 if keep:
                     head.append(rec)
         st = selftest(wd, head)
@@ -253,6 +279,8 @@ def run(tier, seed):
                               "depth": mc["depth"], "wall_s": round(mc["wall_s"], 1),
                               "action_coverage": {a: mc["coverage"].get(a, 0) for a in ACTIONS},
                               "scripts": nscripts_mc, "cases": ncases_mc},
+        "single_bit_sweeps": {"objects": len(sweeps), "bits_flipped": summ["sweep_bits"],
+                              "altered_copies_judged": summ["sweep_judged"]},
         "scripts_run": nscr, "b11_cases_run": len(b11), "b12_cases_run": len(b12),
         "events_validated": total, "engine": summ, "impl_panics": summ["panics"],
         "binding_selftest": st, "exhaustive": False,
